@@ -501,8 +501,8 @@ def confined_destruction(ctx: Ctx, v: LocalView, rule: str) -> int:
     for e in _dedupe([x for x in v.eff["sync_paths"] if x.kind in ("REMOVE", "RMTREE", "RENAME_INTO", "LINK", "WRITE_INPLACE")]):
         n += 1
         desc = f"{e.kind}({show(e.term)}) in sync_paths only touches the entry of the path being committed"
-        if mentions_sym(e.term, "PATH") and not (isinstance(e.term, tuple) and e.term[0] == "dirname") and not _find(
-                e.term, lambda x: isinstance(x, tuple) and x and x[0] in ("slice",)):
+        base = strip_unique(e.term) if unique_sources(e.term) else e.term
+        if base in v.L:
             rep.ok(rule, _site(v, "sync_paths"), desc, e.where())
         else:
             rep.bad(rule, _site(v, "sync_paths"), desc, e.where(), [f"{e.where()}: {e!r} is not a term of the current path: other committed paths lose their content"],
